@@ -17,7 +17,9 @@ CONSTANTS MaxIn, MaxEng,
 VARIABLES s, hist, nin, neng,
           held      \* [k, what]: the transport has taken the terminal message of query k but the write call has not
                     \* returned yet (k = 0: none) - what a slow/blocked socket does to the operation goroutine
-gvars == <<s, hist, nin, neng, held>>
+VARIABLES slow,     \* the handler sits in an InitFunc that takes its time (connection_init with a payload): it reads nothing
+          ticked    \* a keep-alive / heartbeat interval has been waited for (at most once per schedule)
+gvars == <<s, hist, nin, neng, held, slow, ticked>>
 
 StepRec(t, sym, id, k, what) == [t |-> t, sym |-> sym, id |-> id, k |-> k, what |-> what, hold |-> 0]
 NotHeld == [k |-> 0, what |-> ""]
@@ -25,8 +27,8 @@ NotHeld == [k |-> 0, what |-> ""]
 GenInit ==
   IF PreInit
   THEN /\ s = Apply(React(InitSrv, "init", 1).s, React(InitSrv, "init", 1).outs)
-       /\ hist = <<StepRec("in", "init", "", 1, "")>> /\ nin = 1 /\ neng = 0 /\ held = NotHeld
-  ELSE s = InitSrv /\ hist = <<>> /\ nin = 0 /\ neng = 0 /\ held = NotHeld
+       /\ hist = <<StepRec("in", "init", "", 1, "")>> /\ nin = 1 /\ neng = 0 /\ held = NotHeld /\ slow = FALSE /\ ticked = FALSE
+  ELSE s = InitSrv /\ hist = <<>> /\ nin = 0 /\ neng = 0 /\ held = NotHeld /\ slow = FALSE /\ ticked = FALSE
 
 Pos == Len(hist) + 1
 
@@ -35,9 +37,9 @@ Pos == Len(hist) + 1
 Silent == {"sub1q", "sub1s", "sub2q", "pong"}
 
 ClientMsg(sym) ==
-  /\ ~s.closed /\ nin < MaxIn
+  /\ ~s.closed /\ nin < MaxIn /\ ~slow
   /\ held.k = 0 \/ sym \in Silent
-  /\ held' = held
+  /\ held' = held /\ UNCHANGED <<slow, ticked>>
   /\ LET r  == React(s, sym, Pos)
          s1 == Apply(r.s, r.outs)
      IN  \* the executor of a started operation reaches its gate by itself
@@ -46,7 +48,7 @@ ClientMsg(sym) ==
   /\ nin' = nin + 1 /\ neng' = neng
 
 EngineEv(k, what) ==
-  /\ ~s.closed /\ neng < MaxEng /\ held.k = 0 /\ held' = held
+  /\ ~s.closed /\ neng < MaxEng /\ held.k = 0 /\ held' = held /\ UNCHANGED <<slow, ticked>>
   /\ s.ex[k].st = "exec" /\ what \in Whats(s.ex[k].kind)
   /\ ~s.ex[k].canc \/ ~s.ex[k].infl
   /\ LET s1 == [s EXCEPT !.ex[k].infl = s.ex[k].canc] IN s' = AfterEng(s1, k, what)
@@ -55,7 +57,7 @@ EngineEv(k, what) ==
 
 \* the terminal message of a query is on the wire, the engine has not yet got the write call back
 EngineEvHold(k, what) ==
-  /\ Proto = "tws" /\ ~s.closed /\ neng < MaxEng /\ nin < MaxIn /\ held.k = 0
+  /\ Proto = "tws" /\ ~s.closed /\ neng < MaxEng /\ nin < MaxIn /\ held.k = 0 /\ ~slow /\ UNCHANGED <<slow, ticked>>
   /\ s.ex[k].st = "exec" /\ s.ex[k].kind = "q" /\ what \in Whats("q") /\ ~s.ex[k].canc
   /\ held' = [k |-> k, what |-> what]
   \* repaired code: the id is already free while the terminal message is being written
@@ -64,7 +66,7 @@ EngineEvHold(k, what) ==
   /\ neng' = neng + 1 /\ nin' = nin
 
 Release ==
-  /\ held.k # 0 /\ ~s.closed
+  /\ held.k # 0 /\ ~s.closed /\ UNCHANGED <<slow, ticked>>
   /\ s' = AfterEng(s, held.k, held.what)
   /\ held' = NotHeld
   /\ hist' = Append(hist, StepRec("release", "", s.ex[held.k].id, held.k, ""))
@@ -72,17 +74,45 @@ Release ==
 
 \* the transport breaks for good: every read fails from now on; the handler gives up after its read-error time-out
 Broken ==
-  /\ ~s.closed /\ held.k = 0 /\ held' = held
+  /\ ~s.closed /\ held.k = 0 /\ held' = held /\ ~slow /\ UNCHANGED <<slow, ticked>>
   /\ s' = Shut(s)
   /\ hist' = Append(hist, StepRec("broken", "", "", Pos, ""))
   /\ UNCHANGED <<nin, neng>>
 
 \* connection_init never arrives in time (only before any init was sent: no race with the timer)
 InitTimeout ==
-  /\ Proto = "tws" /\ ~s.closed /\ ~s.inited /\ held' = held
+  /\ Proto = "tws" /\ ~s.closed /\ ~s.inited /\ held' = held /\ UNCHANGED <<slow, ticked>>
   /\ s' = Shut(s)
   /\ hist' = Append(hist, StepRec("timeout", "", "", Pos, ""))
   /\ UNCHANGED <<nin, neng>>
+
+\* connection_init with a payload whose InitFunc takes its time: the handler is busy (reads nothing) until InitGo; the
+\* init timeout may fire meanwhile (graphql-transport-ws).  On an acknowledged graphql-transport-ws connection the
+\* InitFunc is not consulted (second init => 4429).
+InitSlow ==
+  /\ ~s.closed /\ nin < MaxIn /\ ~slow /\ held.k = 0 /\ held' = held /\ ticked' = ticked
+  /\ hist' = Append(hist, StepRec("in", "initslow", "", Pos, ""))
+  /\ nin' = nin + 1 /\ neng' = neng
+  /\ IF Proto = "tws" /\ s.inited
+     THEN s' = Apply(React(s, "init", Pos).s, React(s, "init", Pos).outs) /\ slow' = FALSE
+     ELSE s' = s /\ slow' = TRUE
+
+InitGo ==
+  /\ slow /\ ~s.closed
+  /\ s' = Apply(React(s, "init", Pos).s, React(s, "init", Pos).outs)
+  /\ slow' = FALSE
+  /\ hist' = Append(hist, StepRec("initgo", "", "", Pos, ""))
+  /\ UNCHANGED <<nin, neng, held, ticked>>
+
+\* wait for some keep-alive (graphql-ws `ka`) / heartbeat (graphql-transport-ws `pong`) intervals: the timers write on an
+\* acknowledged connection only
+\* (it shares the budget of the engine events, so that the number of schedules stays in bounds)
+Tick ==
+  /\ ~s.closed /\ ~slow /\ held.k = 0 /\ ~ticked /\ neng < MaxEng
+  /\ s.inited \/ nin <= 1          \* before the ack only early in the schedule (keeps the number of schedules in bounds)
+  /\ ticked' = TRUE /\ neng' = neng + 1
+  /\ hist' = Append(hist, StepRec("tick", "", "", Pos, ""))
+  /\ UNCHANGED <<s, nin, held, slow>>
 
 GenNext == \/ \E sym \in Alphabet : ClientMsg(sym)
            \/ \E k \in KS, what \in {"data", "fin", "error", "result"} : EngineEv(k, what)
@@ -90,9 +120,10 @@ GenNext == \/ \E sym \in Alphabet : ClientMsg(sym)
            \/ Release
            \/ InitTimeout
            \/ Broken
+           \/ InitSlow \/ InitGo \/ Tick
 GenSpec == GenInit /\ [][GenNext]_gvars
 
-Final == s.closed \/ (nin = MaxIn /\ held.k = 0)
+Final == s.closed \/ (nin = MaxIn /\ held.k = 0 /\ ~slow)
 Emit == IF Final /\ hist # <<>> THEN PrintT(ToJson([proto |-> Proto, steps |-> hist])) ELSE TRUE
 GenConstraint == Emit
 =============================================================================
